@@ -61,8 +61,10 @@ type Obs struct {
 	Readers  int   `json:"readers"`
 	Writers  int   `json:"writers"`
 	Watchers int   `json:"watchers"`
+	Timers   int   `json:"timers"` // live expiry timers: = watchers where only goroutines are looked at; from the heap profile in the heap scenario
 	Topics   []int `json:"topics"`
 	Chan     int   `json:"chan"`
+	Parents  int   `json:"parents"` // booking ids the chanmap store keeps a (possibly empty) child map for
 	Socks    int   `json:"socks"`
 }
 
@@ -108,7 +110,7 @@ func (c Case) coq() string {
 		}
 		return lib.N(uint64(x))
 	}
-	return lib.Tuple(lib.List(evs), lib.App("mkobs", nn(c.Obs.Readers), nn(c.Obs.Writers), nn(c.Obs.Watchers), lib.List(tp), nn(c.Obs.Chan), nn(c.Obs.Socks)))
+	return lib.Tuple(lib.List(evs), lib.App("mkobs", nn(c.Obs.Readers), nn(c.Obs.Writers), nn(c.Obs.Watchers), nn(c.Obs.Timers), lib.List(tp), nn(c.Obs.Chan), nn(c.Obs.Parents), nn(c.Obs.Socks)))
 }
 
 // ---------------------------------------------------------------- the relay under test
@@ -180,7 +182,7 @@ func (r *rig) count(m map[string]int, k string) int {
 type measure struct {
 	readers, writers, watchers int
 	topics                     []string
-	chans, socks               int
+	chans, parents, socks      int
 	bySite                     map[string]int
 }
 
@@ -231,6 +233,7 @@ func (r *rig) measure() measure {
 	}
 	sort.Strings(m.topics)
 	m.chans = crossbar.VerifChanEntries(r.hub)
+	m.parents = crossbar.VerifChanParents(r.hub)
 	m.socks = countSockets()
 	return m
 }
@@ -517,7 +520,7 @@ func runHistory(r *rig, tag string, c *Case) {
 	for _, t := range base.topics {
 		baseT[t]++
 	}
-	c.Obs = Obs{Readers: m.readers - base.readers, Writers: m.writers - base.writers, Watchers: m.watchers - base.watchers, Chan: m.chans - base.chans}
+	c.Obs = Obs{Readers: m.readers - base.readers, Writers: m.writers - base.writers, Watchers: m.watchers - base.watchers, Timers: m.watchers - base.watchers, Chan: m.chans - base.chans, Parents: m.parents - base.parents}
 	for _, t := range m.topics {
 		if baseT[t] > 0 {
 			baseT[t]--
@@ -738,7 +741,7 @@ func runHangup(r *rig, tag string, c *Case) {
 		time.Sleep(20 * time.Millisecond)
 	}
 	c.SettleMs = int(time.Since(t0) / time.Millisecond)
-	c.Obs = Obs{Readers: m.readers - base.readers, Writers: m.writers - base.writers, Watchers: m.watchers - base.watchers, Chan: m.chans - base.chans}
+	c.Obs = Obs{Readers: m.readers - base.readers, Writers: m.writers - base.writers, Watchers: m.watchers - base.watchers, Timers: m.watchers - base.watchers, Chan: m.chans - base.chans, Parents: m.parents - base.parents}
 	baseT := map[string]int{}
 	for _, t := range base.topics {
 		baseT[t]++
@@ -866,7 +869,7 @@ func runMassDrop(r *rig, tag string, c *Case) {
 		time.Sleep(20 * time.Millisecond)
 	}
 	c.SettleMs = int(time.Since(t0) / time.Millisecond)
-	c.Obs = Obs{Readers: m.readers - base.readers, Writers: m.writers - base.writers, Watchers: m.watchers - base.watchers, Chan: m.chans - base.chans}
+	c.Obs = Obs{Readers: m.readers - base.readers, Writers: m.writers - base.writers, Watchers: m.watchers - base.watchers, Timers: m.watchers - base.watchers, Chan: m.chans - base.chans, Parents: m.parents - base.parents}
 	baseT := map[string]int{}
 	for _, t := range base.topics {
 		baseT[t]++
@@ -1046,6 +1049,12 @@ func oracle(c Case, idx int, res *lib.Result) {
 	}
 	if c.Obs.Chan > liveBid {
 		bad("chanmap-residue", "chanmap-residue", fmt.Sprintf("%d deny-channel entries for %d live connections with a booking id", c.Obs.Chan, liveBid))
+	}
+	if c.Obs.Parents > liveBid {
+		bad("chanmap-residue", "chanmap-residue:empty-parent-maps", fmt.Sprintf("the deny-channel store keeps a child map for %d booking ids although only %d connections with a booking id are live: one (empty) map per PAST booking stays for ever", c.Obs.Parents, liveBid))
+	}
+	if c.Obs.Timers > liveN && c.Obs.Timers != c.Obs.Watchers {
+		bad("heap-residue", "heap-residue:timers", fmt.Sprintf("after a garbage collection the heap still holds about %d live timers armed by connection code for %d live connections: every finished connection leaves its expiry timer (and its channel) behind until the token would have expired", c.Obs.Timers, liveN))
 	}
 	// and when every client of the history has disconnected nothing of it may be left at all
 	ends := map[string]int{}
@@ -1531,7 +1540,7 @@ func churnChild() {
 			time.Sleep(20 * time.Millisecond)
 		}
 		c.SettleMs = int(time.Since(t0) / time.Millisecond)
-		c.Obs = Obs{Readers: m.readers - base.readers, Writers: m.writers - base.writers, Watchers: m.watchers - base.watchers, Chan: m.chans - base.chans}
+		c.Obs = Obs{Readers: m.readers - base.readers, Writers: m.writers - base.writers, Watchers: m.watchers - base.watchers, Timers: m.watchers - base.watchers, Chan: m.chans - base.chans, Parents: m.parents - base.parents}
 		for _, t := range m.topics {
 			n := 9999
 			if strings.HasPrefix(t, tag+"-t") {
@@ -1549,6 +1558,225 @@ func churnChild() {
 	}
 	b, _ := json.Marshal(rep)
 	fmt.Println("CHURN-REPORT " + string(b))
+}
+
+// ---------------------------------------------------------------- what finished connections leave on the heap (child process)
+
+// heapReport: N connect-close cycles with one-hour tokens; afterwards, after a garbage collection, the
+// live heap objects whose allocation stack lies in the relay's connection code must be those of the
+// LIVE connections only. The process records every allocation (runtime.MemProfileRate = 1), which is
+// why this runs in a child of its own.
+type heapReport struct {
+	Cycles       int            `json:"cycles"`
+	PerTimer     int            `json:"objects_per_timer"` // heap objects one live expiry timer accounts for (measured on the live connections)
+	TimerObjs    int            `json:"timer_objects"`     // live objects allocated by time.NewTimer/After under the relay's code, beyond the baseline
+	ConnObjs     int            `json:"conn_objects"`      // live objects allocated under crossbar.serveWs / (*Client) methods, beyond baseline and live connections
+	LiveConnObjs int            `json:"live_conn_objects"` // what the 8 live connections account for
+	Top          map[string]int `json:"top"`               // biggest growth by allocating relay function
+	Case         *Case          `json:"case"`
+	Err          string         `json:"err,omitempty"`
+}
+
+type heapCount struct {
+	timers, conn int
+	bySite       map[string]int
+}
+
+func heapProfile() heapCount {
+	for i := 0; i < 4; i++ { // the profile lags up to two collection cycles behind; timers deleted lazily need a tick
+		runtime.GC()
+		time.Sleep(30 * time.Millisecond)
+	}
+	n, _ := runtime.MemProfile(nil, false)
+	var recs []runtime.MemProfileRecord
+	for {
+		recs = make([]runtime.MemProfileRecord, n+200)
+		var ok bool
+		n, ok = runtime.MemProfile(recs, false)
+		if ok {
+			recs = recs[:n]
+			break
+		}
+	}
+	hc := heapCount{bySite: map[string]int{}}
+	for _, rec := range recs {
+		live := int(rec.InUseObjects())
+		if live <= 0 {
+			continue
+		}
+		frames := runtime.CallersFrames(rec.Stack())
+		timer, relayFn, conn, cache := false, "", false, false
+		for {
+			f, more := frames.Next()
+			switch {
+			case f.Function == "runtime.acquireSudog" || f.Function == "runtime.malg" || f.Function == "runtime.allgadd":
+				cache = true // the runtime's own caches (wait-queue entries, goroutine descriptors) are reused, not leaked
+			case f.Function == "time.NewTimer" || f.Function == "time.After" || f.Function == "time.AfterFunc" || f.Function == "time.NewTicker":
+				timer = true
+			case strings.Contains(f.Function, "practable/relay/internal/"):
+				if relayFn == "" {
+					relayFn = f.Function[strings.LastIndex(f.Function, "/")+1:]
+				}
+				if strings.Contains(f.Function, "crossbar.serveWs") || strings.Contains(f.Function, "crossbar.(*Client)") {
+					conn = true
+				}
+			}
+			if !more {
+				break
+			}
+		}
+		if relayFn == "" || cache || strings.Contains(relayFn, "verifhook") {
+			continue
+		}
+		// timers: only those armed by a connection's own code (watcher timer, ping ticker); the
+		// services' periodic time.After timers come and go with their periods
+		if timer && conn {
+			hc.timers += live
+		} else if conn || strings.HasPrefix(relayFn, "chanmap.") {
+			hc.conn += live
+		}
+		hc.bySite[relayFn] += live
+		if os.Getenv("C13_HEAP_DEBUG") != "" && live >= 20 {
+			fr := runtime.CallersFrames(rec.Stack())
+			var names []string
+			for {
+				f, more := fr.Next()
+				names = append(names, f.Function[strings.LastIndex(f.Function, "/")+1:])
+				if !more || len(names) > 6 {
+					break
+				}
+			}
+			fmt.Fprintln(os.Stderr, "HEAPDBG", live, rec.InUseBytes()/int64(live), strings.Join(names, " < "))
+		}
+	}
+	return hc
+}
+
+func heapChild() {
+	rep := heapReport{Top: map[string]int{}}
+	r := startRigBuf(16)
+	tag := "heap"
+	now := time.Now().Unix()
+	seq := 0
+	var smu sync.Mutex
+	one := func(topic int, keep bool) *websocket.Conn {
+		smu.Lock()
+		seq++
+		i := seq
+		smu.Unlock()
+		tp := fmt.Sprintf("%s-t%d", tag, topic)
+		code := r.submit(r.aud, tp, fmt.Sprintf("%s-b%d", tag, i), []string{"read", "write"}, now-5, now+3600)
+		ws, err := r.dial("/session/"+tp, code, false)
+		if err != nil {
+			return nil
+		}
+		if keep {
+			go func() {
+				for {
+					if _, _, err := ws.ReadMessage(); err != nil {
+						return
+					}
+				}
+			}()
+			return ws
+		}
+		ws.WriteMessage(websocket.BinaryMessage, []byte("hello"))
+		if i%2 == 0 {
+			ws.WriteControl(websocket.CloseMessage, websocket.FormatCloseMessage(websocket.CloseNormalClosure, ""), time.Now().Add(time.Second))
+			ws.Close()
+		} else {
+			ws.UnderlyingConn().Close()
+		}
+		return nil
+	}
+	cycles := func(n int) {
+		sem := make(chan struct{}, 16)
+		var wg sync.WaitGroup
+		for k := 0; k < n; k++ {
+			wg.Add(1)
+			sem <- struct{}{}
+			go func(k int) { defer wg.Done(); defer func() { <-sem }(); one(1+k%4, false) }(k)
+		}
+		wg.Wait()
+	}
+	settle := func(liveN int, base measure) measure {
+		bound := time.Now().Add(settleBound)
+		for {
+			m := r.measure()
+			if (m.readers-base.readers == liveN && m.writers-base.writers == liveN && m.watchers-base.watchers == liveN && len(m.topics)-len(base.topics) == liveN) || time.Now().After(bound) {
+				return m
+			}
+			time.Sleep(20 * time.Millisecond)
+		}
+	}
+	cycles(40) // warm-up: pools, maps, lazily created things
+	time.Sleep(300 * time.Millisecond)
+	base := r.measure()
+	h0 := heapProfile()
+	c := &Case{Kind: "heap-cycles"}
+	var liveWs []*websocket.Conn
+	const nLive = 8
+	for k := 0; k < nLive; k++ {
+		c.Conns = append(c.Conns, Conn{Outcome: "join", Topic: 5, HasBid: true, Accepted: true})
+		if ws := one(5, true); ws != nil {
+			liveWs = append(liveWs, ws)
+		}
+	}
+	settle(nLive, base)
+	h1 := heapProfile()
+	rep.PerTimer = (h1.timers - h0.timers + nLive/2) / nLive
+	rep.LiveConnObjs = h1.conn - h0.conn
+	n := 300
+	rep.Cycles = n
+	cycles(n)
+	for k := 0; k < n; k++ {
+		e := "clientclose"
+		if k%2 == 1 {
+			e = "netloss"
+		}
+		c.Conns = append(c.Conns, Conn{Outcome: "join", Topic: 1 + k%4, HasBid: true, End: e, Accepted: true})
+		c.Order = append(c.Order, nLive+k)
+	}
+	t0 := time.Now()
+	m := settle(nLive, base)
+	c.SettleMs = int(time.Since(t0) / time.Millisecond)
+	time.Sleep(500 * time.Millisecond)
+	h2 := heapProfile()
+	rep.TimerObjs = h2.timers - h0.timers
+	rep.ConnObjs = h2.conn - h1.conn
+	for k, v := range h2.bySite {
+		if d := v - h1.bySite[k]; d >= 20 {
+			rep.Top[k] = d
+		}
+	}
+	// timers stopped a moment ago are taken out of the runtime's timer heap lazily, so a few objects
+	// come and go: anything below half an object per finished connection is noise; above it, every
+	// leaked timer accounts for at least two objects (the timer and its channel)
+	timers := len(liveWs)
+	if rep.PerTimer <= 0 {
+		rep.Err = "could not see the live connections' expiry timers in the heap profile"
+	} else if excess := rep.TimerObjs - len(liveWs)*rep.PerTimer; excess > n/2 {
+		timers += (excess + 1) / 2
+	}
+	c.Obs = Obs{Readers: m.readers - base.readers, Writers: m.writers - base.writers, Watchers: m.watchers - base.watchers, Timers: timers, Chan: m.chans - base.chans, Parents: m.parents - base.parents}
+	for range liveWs {
+		c.Obs.Topics = append(c.Obs.Topics, 5)
+	}
+	if len(m.topics)-len(base.topics) != len(liveWs) {
+		c.Obs.Topics = nil
+		for _, t := range m.topics {
+			nn := 9999
+			if strings.HasPrefix(t, tag+"-t") {
+				nn, _ = strconv.Atoi(strings.TrimPrefix(t, tag+"-t"))
+			}
+			c.Obs.Topics = append(c.Obs.Topics, nn)
+		}
+	}
+	c.Obs.Socks = (m.socks - len(liveWs)) - base.socks
+	rep.Case = c
+	runtime.KeepAlive(liveWs)
+	b, _ := json.Marshal(rep)
+	fmt.Println("HEAP-REPORT " + string(b))
 }
 
 func runChild(sub, marker string, limit time.Duration, into interface{}) error {
@@ -1613,6 +1841,11 @@ func main() {
 		shutdownChild()
 		return
 	}
+	if len(os.Args) > 1 && os.Args[1] == "heap-child" {
+		runtime.MemProfileRate = 1 // every allocation is recorded from here on
+		heapChild()
+		return
+	}
 	if len(os.Args) > 1 && os.Args[1] == "churn-child" {
 		churnChild()
 		return
@@ -1653,6 +1886,49 @@ func main() {
 			ch <- chOut{cr, e}
 		}()
 	}
+	type hpOut struct {
+		rep heapReport
+		err error
+	}
+	hp := make(chan hpOut, 1)
+	type swOut struct {
+		gens  []int // codes left of each generation when its sweep was due
+		notes string
+	}
+	sw := make(chan swOut, 1)
+	if a.Replay == "" {
+		go func() {
+			var hr heapReport
+			e := runChild("heap-child", "HEAP-REPORT", 90*time.Second, &hr)
+			hp <- hpOut{hr, e}
+		}()
+		// the code store's sweeper over several of its periods: three generations of abandoned codes
+		// (requested, never exchanged), each submitted after the previous sweep, must each be gone
+		// two periods (+1.5 s) after they were submitted. TTL 1 s, so the period is 2 s.
+		go func() {
+			out := swOut{}
+			cs := ttlcode.NewDefaultCodeStore().WithTTL(1)
+			defer cs.Close()
+			for g := 0; g < 3; g++ {
+				for k := 0; k < 40; k++ {
+					tk := permission.NewToken("ws://nowhere", "session", "abandoned", []string{"read"}, 0, 0, time.Now().Unix()+3600)
+					tk.SetBookingID(fmt.Sprintf("abandoned-%d-%d", g, k))
+					cs.SubmitToken(tk)
+				}
+				deadline := time.Now().Add(2*2*time.Second + 1500*time.Millisecond)
+				for cs.GetCodeCount() > 0 && time.Now().Before(deadline) {
+					time.Sleep(50 * time.Millisecond)
+				}
+				left := cs.GetCodeCount()
+				out.gens = append(out.gens, left)
+				if left > 0 && g == 0 {
+					out.notes = "the very first sweep did not come within two periods (the sweeper may have read the default TTL before it was shortened): not judged"
+					break
+				}
+			}
+			sw <- out
+		}()
+	}
 	// the translator's self-test corpus (known loop shapes with known verdicts)
 	if root := os.Getenv("VERIF_ROOT"); root != "" && a.Replay == "" {
 		out, err := exec.Command(filepath.Join(root, "translator", "bin", "loops"), "-selftest").CombinedOutput()
@@ -1691,6 +1967,51 @@ func main() {
 			res.Count("churn-scenario")
 			res.CountN("churn-status-reports", o.rep.Reports)
 			cases = append(cases, *o.rep.Case)
+		}
+	}
+
+	if a.Replay == "" {
+		o := <-hp
+		hist := map[string]interface{}{"history": "40 warm-up cycles; 8 live connections; 300 connect / say hello / close cycles with 1 h tokens (16 at a time); garbage collections; heap profile with every allocation recorded", "observed": o.rep}
+		res.Extra["heap"] = map[string]interface{}{"timer_objects": o.rep.TimerObjs, "objects_per_timer": o.rep.PerTimer, "conn_objects": o.rep.ConnObjs, "live_conn_objects": o.rep.LiveConnObjs, "top": o.rep.Top}
+		switch {
+		case o.err != nil:
+			res.Violate(lib.Violation{Clause: "heap-scenario", Case: -1, Key: "heap-scenario-failed", Detail: o.err.Error(), Replay: hist})
+		case o.rep.Err != "":
+			res.Notes = append(res.Notes, "heap scenario: "+o.rep.Err)
+		default:
+			res.Count("heap-scenario")
+			if o.rep.Case != nil {
+				cases = append(cases, *o.rep.Case)
+			}
+			if o.rep.ConnObjs > o.rep.Cycles/2 {
+				var sites []string
+				for k, v := range o.rep.Top {
+					sites = append(sites, fmt.Sprintf("%s +%d", k, v))
+				}
+				sort.Strings(sites)
+				key := "heap-residue:per-connection-objects"
+				if len(sites) == 1 {
+					key = "heap-residue:" + strings.SplitN(sites[0], " ", 2)[0]
+				}
+				res.Violate(lib.Violation{Clause: "heap-residue", Case: -1, Key: key,
+					Detail: fmt.Sprintf("after %d finished connections and a garbage collection %d heap objects allocated by the relay's connection code are still live beyond what the 8 live connections hold (%d): the footprint grows with the number of PAST connections; allocated in: %s", o.rep.Cycles, o.rep.ConnObjs, o.rep.LiveConnObjs, strings.Join(sites, ", ")), Replay: hist})
+			}
+		}
+		so := <-sw
+		res.Extra["sweeper"] = map[string]interface{}{"codes_left_per_generation": so.gens, "note": so.notes}
+		if so.notes != "" {
+			res.Notes = append(res.Notes, "sweeper scenario: "+so.notes)
+		} else {
+			res.Count("sweeper-scenario")
+			for g, left := range so.gens {
+				if left > 0 {
+					res.Violate(lib.Violation{Clause: "abandoned-codes-pile-up", Case: -1, Key: "abandoned-codes-pile-up",
+						Detail: fmt.Sprintf("code store with TTL 1 s (sweeper period 2 s): generation %d of 40 abandoned codes, submitted after the previous sweep, still has %d codes in the store two periods + 1.5 s later (left per generation: %v): the sweeper stopped after its first period", g+1, left, so.gens),
+						Replay: map[string]interface{}{"history": "NewDefaultCodeStore().WithTTL(1); three times: submit 40 tokens, never exchange, wait up to 5.5 s for the store to be empty", "observed": so.gens}})
+					break
+				}
+			}
 		}
 	}
 
